@@ -61,6 +61,23 @@ def generic_histories(rng, count, length, **kw):
     return out
 
 
+def long_runs(rng, prefix, kinds=None, n_bursts=6, k=0):
+    """one long script: bursts of up to 300 consecutive identical groups (a counter of repetitions that
+    wraps at 256, a cache of the last group), with single different groups and occasional resets between"""
+    g = Gen(rng, k=k)
+    L = g.preamble(register="all", permissive=(rng.random() < 0.5), ext=False)
+    for b in range(n_bursts):
+        line = g.parse_line(rng.choice(kinds) if kinds else None, (0, 0, 0, 0))
+        for _ in range(rng.choice([3, 40, 257, 300])):
+            L.append(line)
+        for _ in range(rng.randrange(1, 6)):
+            L.append(g.parse_line(rng.choice(kinds) if kinds else None))
+        if rng.random() < 0.3:
+            L.append("%d C" % k)
+        L.append(line)
+    return ("%s_long" % prefix, L)
+
+
 def sweep_script(name, prefix, items, k=0):
     """save the state after the prefix, then run every item from that same state"""
     L = list(prefix) + ["%d V" % k]
@@ -99,6 +116,7 @@ def run_C01(tier, rng, chk):
                                 (2, 2, 0, 0), (0, 0, 3, 3), (255, 0, 0, 0), (0, 255, 0, 0), (rng.randrange(4), rng.randrange(4), rng.randrange(4), rng.randrange(4))])
                 L.append(gg.parse_line(kind, e))
         hist.append(("c01_hist_%d" % i, L))
+    hist.append(long_runs(rng, "c01"))
     out = chk.run_stream(hist, prop="C01")
     res.append(fam("histories(normal mode, all group types, error patterns on A/B)", hist, out,
                    owned_keys=["pi", "pty", "tp", "ta", "ms"]))
@@ -369,6 +387,7 @@ def run_C04(tier, rng, chk):
                 if rng.random() < 0.15:
                     L.append(l)        # immediate re-delivery
         hist.append(("c04_hist_%d" % i, L))
+    hist.append(long_runs(rng, "c04"))
     out = chk.run_stream(hist, prop="C04")
     res = [fam("histories(all group kinds, all settings, immediate re-delivery, registrations changing)", hist, out)]
     # targeted: text groups whose blocks are rejected after a flag switch; same data at better level
@@ -433,6 +452,7 @@ def hammer_scripts(rng, tier, prefix, prog_mode, single_flag=True, n_scripts=(80
 
 def run_C06(tier, rng, chk):
     st = hammer_scripts(rng, tier, "c06_hammer", None, single_flag=True)
+    st.append(long_runs(rng, "c06", ["0A", "2A", "2B", "10A", "0B"]))
     out = chk.run_stream(st, prop="C06")
     res = [fam("hammer(few cells per text, all threshold pairs, both progressive settings, error pairs 0..4/255, special bytes)", st, out)]
     st2 = hammer_scripts(rng, tier, "c06_toggle", None, single_flag=False, n_scripts=(40, 250))
@@ -582,6 +602,7 @@ def run_C10(tier, rng, chk):
             else:
                 L.append(gg.parse_line(rng.choice(["0A", "0A", "0A", "0B", "other", "2A"]), rng.choice([(0, 0, 0, 0)] * 4 + [(0, 1, 0, 0), (0, 0, 1, 0), (0, 1, 1, 0), (0, 2, 2, 0)])))
         hist.append(("c10_hist_%d" % i, L))
+    hist.append(long_runs(rng, "c10", ["0A", "0A", "0B"]))
     out = chk.run_stream(hist, prop="C10")
     res.append(fam("histories(AF pools sharing bitmap bytes, both check modes, corrected blocks with permissive text thresholds)", hist, out, owned_keys=["af"]))
     # the same pair immediately before and after a reset, and the same pair repeated: "since the last
